@@ -22,7 +22,7 @@ META = {
     "ready": False,
     "category": "proof",
     "technique": "Lean 4 model of steel's syntax-rules machinery (pattern compilation, match_list_pattern, collect_bindings, definition-time ## renaming, ReplaceExpressions, Expander) + R7RS/Kohlbecker specification; theorems about matching/instantiation and the guarded hygiene statement; differential runs real SteelMacro / real Engine vs model vs specification",
-    "level_text": "see SteelVerif/C13/Props.lean; filled by run()",
+    "level_text": "Proved for all patterns / forms / programs (SteelVerif/C13/Props.lean, induction, no bounds): match_exact (for well-formed pattern lists — one ellipsis per list, distinct variables, any nesting / ellipsis depth, dotted tails — matching a user form and re-instantiating the pattern as a template with steel's instantiator gives the form back and binds every variable; guards: no ellipsis followed by a dotted tail in one list (finding K13e), the form contains no identifier spelled like a mangled pattern variable; both guards shown necessary by witnesses), match_complete (after a successful match collect_bindings never fails), match_literal, expand_fuel_mono, and not_hygiene: the full hygiene statement is false for the mechanism, with one witness per violated conjunct (K13a, K13b, K13c, K13d) by kernel evaluation. NOT proved: hygiene_partial (G prog -> M expansion alpha-equivalent to the ideal expansion); the statement is kept as HygienePartial. Inside G, and for modules / macro-defining macros, hygiene rests on the differential run: real SteelMacro vs model (exact expansion text) and vs R7RS specification on generated pattern/form pairs, real Engine vs model vs specification (values that reveal which binding each identifier resolved to) on generated programs.",
     "level_note": "Trusted: Lean kernel, harness/driver/comparison, hand-written model (tied to /repo by the unit- and program-level correspondence on every run). Modules, kernel (defmacro) macros, vectors/strings/quote patterns, named let, set! and syntax-case are not modelled.",
 }
 
@@ -327,6 +327,9 @@ def mirror_flags(text):
                 for (pv2, intro2, free2, tmpl2, _, _) in info.get(u, []):
                     if intro & intro2 or intro & pv2 or binder_position_vars(tmpl2, pv2):
                         flags.add("b")
+    # a use-site binder (let / lambda / define parameter) spelled like a literal of some macro
+    if ub & all_lits:
+        flags.add("c")
     # user code written with ## names can collide with anything
     if any(isinstance(x, str) and x.startswith("##") for f in forms for x in atoms(f)):
         flags.add("b")
@@ -851,7 +854,7 @@ def run(ctx):
 
     quick = ctx.quick()
     nprog = 400 if quick else 20000
-    nunit = 600 if quick else 30000
+    nunit = 3000 if quick else 60000
     g = Gen(rng, 3 if quick else 6, 2 if quick else 3, not quick)
     streams = [("main", 0.45), ("a", 0.12), ("b", 0.15), ("c", 0.08), ("e", 0.05), ("mixed", 0.15)]
     for name, frac in streams:
